@@ -423,9 +423,10 @@ class Continuous(AgentSchedulingComponent):
                                  % partition_id)
 
             # partition id becomes a part of a co-locate tag
+            # NOTE: the nodes of a partition are not known at this point, so
+            #       the partition itself does not constrain the node selection
+            #       (an empty node list for the tag would exclude all nodes)
             colo_tag = str(partition_id) + ('' if not colo_tag else '_%s' % colo_tag)
-            if colo_tag not in self._colo_history:
-                self._colo_history[colo_tag] = list()
         task_partition_id = None
 
         # what remains to be allocated?  all of it right now.
